@@ -363,6 +363,22 @@ func run(c Case) ev.Verdict {
 		}
 	}
 
+	sentAny := false
+
+	for _, l := range dev.Lines {
+		sentAny = sentAny || (l.Line != "" && l.Line != "configure terminal" && l.Line != "end")
+	}
+
+	if err != nil && file != "" && !sentAny {
+		for _, cm := range c.Cmds {
+			if cm.Pad > 0 {
+				// a file with a line the loader does not take, refused with an error before
+				// anything was sent: as good as sending it (what must not happen is silence)
+				return ev.Verdict{OK: true, Infeasible: true, Classes: []string{"over-long-file-line-refused"}, Note: err.Error()}
+			}
+		}
+	}
+
 	if err != nil {
 		return ev.Fail("%s: %v", c.API, err)
 	}
